@@ -14,6 +14,62 @@ mod k256_key;
 #[cfg(feature = "rust-secp256k1")]
 mod rust_secp256k1;
 
+/// Verification-only seam (cfg `enr_verif`, off by default): lets a deterministic simulator seed the
+/// randomness that feeds ECDSA nonces. Unseeded, it is the operating system's RNG as usual.
+#[cfg(enr_verif)]
+pub mod verif_hooks {
+    use rand::{rngs::OsRng, CryptoRng, RngCore};
+    use std::cell::Cell;
+
+    thread_local! {
+        static STATE: Cell<Option<u64>> = const { Cell::new(None) };
+    }
+
+    /// Seeds (or, with `None`, un-seeds) the signing RNG of the calling thread.
+    pub fn seed_signing_rng(seed: Option<u64>) {
+        STATE.with(|s| s.set(seed));
+    }
+
+    /// Stand-in for `rand::rngs::OsRng` in the secp256k1 back-ends.
+    #[derive(Clone, Copy, Debug, Default)]
+    pub struct SimOsRng;
+
+    impl RngCore for SimOsRng {
+        fn next_u32(&mut self) -> u32 {
+            (self.next_u64() >> 32) as u32
+        }
+
+        fn next_u64(&mut self) -> u64 {
+            STATE.with(|s| match s.get() {
+                None => OsRng.next_u64(),
+                Some(state) => {
+                    // splitmix64
+                    let state = state.wrapping_add(0x9E37_79B9_7F4A_7C15);
+                    s.set(Some(state));
+                    let mut z = state;
+                    z = (z ^ (z >> 30)).wrapping_mul(0xBF58_476D_1CE4_E5B9);
+                    z = (z ^ (z >> 27)).wrapping_mul(0x94D0_49BB_1331_11EB);
+                    z ^ (z >> 31)
+                }
+            })
+        }
+
+        fn fill_bytes(&mut self, dest: &mut [u8]) {
+            for chunk in dest.chunks_mut(8) {
+                let v = self.next_u64().to_le_bytes();
+                chunk.copy_from_slice(&v[..chunk.len()]);
+            }
+        }
+
+        fn try_fill_bytes(&mut self, dest: &mut [u8]) -> Result<(), rand::Error> {
+            self.fill_bytes(dest);
+            Ok(())
+        }
+    }
+
+    impl CryptoRng for SimOsRng {}
+}
+
 #[cfg(all(feature = "ed25519", feature = "k256"))]
 pub use combined::{CombinedKey, CombinedPublicKey};
 #[cfg(feature = "ed25519")]
